@@ -425,7 +425,7 @@ class Analysis:
         path = path + ('[%d]' % e['ci'],)
       elif isinstance(e, dict) and 'i' in e:
         iv_ = st.m.get((e['i'], ()))
-        if iv_ is not None and iv_[0] == 'i' and iv_[1] == iv_[2] and (l, path + ('[%d]' % iv_[1],)) in st.m:
+        if iv_ is not None and iv_[0] == 'i' and iv_[1] == iv_[2] and st.subtree((l, path + ('[%d]' % iv_[1],))):
           path = path + ('[%d]' % iv_[1],)
         else:
           path = path + ('[*]',)
@@ -1136,7 +1136,7 @@ class Analysis:
             st.m[(dk[0], pre + ('[%d]' % i,))] = v
       return
     if k == 'discr':
-      self.assign_val(st, p, None)
+      self.assign_val(st, p, self._discr_range(rv['p']))
       dk = self.key_of_place(st, p)
       sk = self.key_of_place(st, rv['p'])
       if dk is not None and sk is not None:
@@ -1146,6 +1146,24 @@ class Analysis:
       self.assign_val(st, p, None)
       return
     self.assign_val(st, p, top_of(self.place_ty(p)))
+
+  def _discr_range(self, place):
+    """range of the discriminant values of a workspace enum (explicit or implicit discriminants)"""
+    ty = self.place_ty(place) or ''
+    while ty.startswith('&'):
+      ty = ty[1:].lstrip()
+      if ty.startswith('mut '):
+        ty = ty[4:]
+    base = ty.split('<')[0]
+    adt = self.F.adts.get(base)
+    if adt is None or adt.get('kind') != 'enum' or not adt.get('variants'):
+      if base in ('std::option::Option', 'std::result::Result', 'std::ops::ControlFlow'):
+        return iv(0, 1)
+      return None
+    ds = [v.get('discr') for v in adt['variants']]
+    if any(d is None for d in ds):
+      return iv(0, len(ds) - 1) if all(d is None for d in ds) else None
+    return iv(min(ds), max(ds))
 
   def _cmp_side(self, st, o):
     if 'k' in o:
